@@ -1203,8 +1203,14 @@ func (*c03w) Oracle(c Case, impl []string) []Failure {
 				fail("wire1-read-size:"+cc.name, "wire_call_transparent(size)", strconv.FormatInt(a.b.d.size, 10))
 			}
 			if (cc.name == "getManifest" || cc.name == "getTag") && x.o.bits[2] == '0' {
-				if f[2] != tok(a.b.d.dg) {
-					fail("wire1-read-digest:"+cc.name, "wire_call_transparent(digest)", a.b.d.dg)
+				// by digest the caller is told the digest it asked for (F31: client_reports_requested_digest); a backend
+				// that honours the interface answers with that same digest, so this is transparency for every faithful backend
+				wantDg := a.b.d.dg
+				if cc.name == "getManifest" {
+					wantDg = cc.dg
+				}
+				if f[2] != tok(wantDg) {
+					fail("wire1-read-digest:"+cc.name, "wire_call_transparent(digest)", wantDg)
 				}
 				mt := a.b.d.mt
 				if mt == "" {
@@ -1226,8 +1232,8 @@ func (*c03w) Oracle(c Case, impl []string) []Failure {
 			switch cc.name {
 			case "resolveBlob", "resolveManifest", "resolveTag":
 				wantDg := a.b.d.dg
-				if cc.name == "resolveManifest" && x.o.bits[2] == '1' {
-					wantDg = cc.dg
+				if cc.name != "resolveTag" {
+					wantDg = cc.dg // F31: the digest that was asked for
 				}
 				if f[2] != tok(wantDg) || f[3] != strconv.FormatInt(a.b.d.size, 10) {
 					fail("wire1-desc:"+cc.name, "wire_call_transparent(digest, size)", wantDg)
@@ -1242,8 +1248,8 @@ func (*c03w) Oracle(c Case, impl []string) []Failure {
 					}
 				}
 			case "mountBlob":
-				if f[2] != tok(a.b.d.dg) {
-					fail("wire1-desc:mountBlob", "wire_call_transparent(digest)", a.b.d.dg)
+				if f[2] != tok(cc.dg) { // F31: the digest that was asked for
+					fail("wire1-desc:mountBlob", "wire_call_transparent(digest)", cc.dg)
 				}
 			case "pushManifest":
 				// the client's own account of what it pushed
